@@ -227,6 +227,12 @@ def sim_filter_class():
                 mq = getattr(self, 'mq', None)
                 if mq is not None and mq.send_state is not None:
                     mid = mq.send_state.msg_id
+                if not frames and spec.get('sources_timeout') is not None:
+                    # sources_timeout elapsed: process() is called with no frames; the scripted filter emits nothing
+                    st.k = k
+                    w.ev('in_empty', st.nid, st.proc.inc, k)
+                    sched.sleep_ns(w.min_cpu_ns, 'process-empty')
+                    return None
                 desc = w.describe_frames(frames)
                 w.ev('in', st.nid, st.proc.inc, k, mid, desc)
                 w.n_in += 1
